@@ -24,7 +24,7 @@ echo "patched: gofmt=[$fmtout] build/vet=[$b] suite: $suite"
 echo "patched+demo: $demo"
 fired=""
 for p in $props; do
-  out=$(VERIF_REPO=$d VERIF_DIR=$v /verif/bin/sigcheck -prop $p 2>&1); rc=$?
+  out=$(VERIF_REPO=$d VERIF_DIR=$v ${SIGCHECK:-/verif/bin/sigcheck} -prop $p 2>&1); rc=$?
   if [ $rc -ne 0 ]; then fired="$fired $p"; echo "--- $p rc=$rc"; echo "$out" | grep "^REFUTED\|^UNDECIDED" -A1 | grep -v "^--" | cut -c1-${WIDTH:-300} | head -${LINES_MAX:-4}; fi
 done
 echo "FIRED:$fired"
